@@ -510,7 +510,7 @@ func genCase(t *rapid.T) Case {
 	}
 
 	// ---- prior output tree ----
-	c.Prior = rapid.SliceOfN(rapid.IntRange(0, 2), 6, 6).Draw(t, "prior")
+	c.Prior = rapid.SliceOfN(rapid.IntRange(0, 11), 6, 6).Draw(t, "prior") // choice = v%3 (absent / identical / stale), stale variant = v/3
 	unrel := []modgen.File{
 		{Path: "unrelated.v", Content: "(* keep me *)\n"},
 		{Path: "notes/readme.md", Content: "notes\n"},
